@@ -106,6 +106,23 @@ CHECKS["C09"] = dict(
          "right exponents, the derived constants, the Euler split and CT Tonelli-Shanks template of the minimal backend, legendre = zero test + Euler.",
     note=OTHER_NOTE + " The contract itself is listed as undecided in the evidence assumptions.", design="DESIGN.md §4 C09, §6")
 
+CHECKS["C11"] = dict(
+    technique="static: glue-level abstract interpretation of the conversion layer (arithmetic and wrapper primitives abstract) matched against specified term shapes: chunked Horner reduction, checked parse, canonical stream (de)serialisation, Ord/Hash, integer packing, u32/u64 limb plumbing; constants by evaluated value",
+    category="other",
+    text="Decides the hand-written conversion glue of Fq/Fr/Fp in both backends (108 obligations): chunk width = N_8, zero padding on the high side, Horner from the most significant chunk with the "
+         "constant 2^(8 N_8) mod p (by value), big-endian = reverse then LE, checked parse = reduce/re-serialise/compare, from_bigint rejects iff >= p, stream forms read LE limbs and apply the "
+         "same check, Ord compares canonical limbs most-significant first, Hash writes canonical bytes, From<u128> packs limbs, the wrappers split/recombine u32/u64 limbs correctly.",
+    note=OTHER_NOTE + " ASSUMED (arithmetic, not shape): from_raw_bytes (arkworks from_le_bytes_mod_order / fiat from_bytes+to_montgomery on unreduced input) reduces modulo p. Display/FromStr have no rule.",
+    design="DESIGN.md §4 C11")
+CHECKS["C12"] = dict(
+    technique="static sibling cross-check of the two feature configurations: canonical-form equality of decode/encode/Elligator under one normaliser, FWD denotations of every shared operator form, identical glue-level terms of the shared field source against both wrappers, constants by canonical value, public-signature parity",
+    category="other",
+    text="The arkworks build and the minimal build are compared as programs (576 obligations): decode value and guard set, encode and Elligator are the same functions; all operator forms "
+         "denote the same abstract operation (minimal formulas tied to the group law by polynomial reduction, ladder by template); 133 shared field-layer routines yield identical terms "
+         "against the u64 and u32 wrappers; 64 duplicated constants agree by canonical value; 230 shared public items have equal signatures.",
+    note=OTHER_NOTE + " NOT decided: equality of the two primitive layers (arkworks Fp vs fiat bodies) on all inputs, and that the two square-root routines return the same root (C09/C10 trusted parts).",
+    design="DESIGN.md §4 C12")
+
 NOT_APPLICABLE = {}
 
 PENDING = {}  # property -> reason, for properties whose check is not built yet
